@@ -129,3 +129,34 @@ def check(ctx):
         ru = F.unit(f"{ST}::historical_rocksdb::remove_historical_modifications")
         dup2 = [c for b in ru.bodies for c in b.calls_to(f"{ST}::historical_rocksdb::description::historical_duplicate_column_id")]
         ctx.expect_sites("5.history-removed-from-duplicate-columns", dup2, exactly=1, what="historical_duplicate_column_id(column) when removing per-key history")
+
+    # -- 6. reverse prefix iteration of RocksDb starts at the tight successor of the prefix --
+    with ctx.clause("6.reverse-prefix-seek"):
+        RDB = "fuel_core::state::rocks_db"
+        nb = F.unit(f"{RDB}::next_prefix").root
+        ca = ctx.one_call(nb, "u8::checked_add", "core::num::<impl u8>::checked_add")
+        ctx.const_arg("6.successor-increments-by-one", ca, 1, 1)
+        # a byte that cannot be incremented (0xFF) must not stay in the successor: it is removed (pop / truncate) or zeroed
+        shorten = [c for c in nb.calls if c.bb in nb.live and c.name in ("pop", "truncate", "split_off", "drain", "fill", "resize")]
+        zeroed = [s for bb, j, s in nb.stmts() if bb in nb.live and s["k"] == "assign" and "*" in (s["pl"].get("p") or []) and s["rv"]["k"] == "use" and
+                  s["rv"]["op"].get("k") == "const" and str(s["rv"]["op"].get("v")) in ("0", "0_u8")]
+        ctx.add("6.overflowing-bytes-are-dropped", "LINREL", bool(shorten or zeroed),
+                "next_prefix removes (or zeroes) the trailing 0xFF bytes it steps over: the successor of [a, 0xFF] is [a+1], not [a+1, 0xFF] — "
+                "otherwise a key between the prefix range and that value is hit first by the inclusive reverse seek and the iteration ends empty",
+                sites=[c.where() for c in shorten] or [f"{nb.file}:{nb.line}"], site_key="tight")
+        bad, _ = ctx.ok_edges(ca, polarity="bad")
+        loop_heads = [c for c in nb.calls if c.bb in nb.live and c.name in ("pop", "next", "next_back")]
+        ctx.add("6.overflow-carries-to-the-previous-byte", "ORDER", bool(bad) and bool(loop_heads) and all(nb.path([ctx._edge_target(nb, e)], [c.bb for c in loop_heads]) is not None for e in bad),
+                "when the last byte is 0xFF the increment carries into the byte before it (None only when every byte overflows)", sites=[ca.where()], site_key="carry")
+        nones = [bb for bb, j, s in nb.stmts() if bb in nb.live and s["k"] == "assign" and s["rv"]["k"] == "agg" and s["rv"].get("adt") == "core::option::Option" and s["rv"].get("variant") == "None"]
+        okn = bool(bad) and all(nb.path([ctx._edge_target(nb, e)], nones, cut_blocks=[c.bb for c in loop_heads]) is None for e in bad)
+        ctx.add("6.none-only-when-exhausted", "GUARD", okn, "next_prefix returns None only after all bytes were tried", sites=[f"bb{x}" for x in nones], site_key="none")
+        ru = F.unit(f"{RDB}::RocksDb::reverse_prefix_iter")
+        rb = ru.root
+        npc = [c for x in ru.bodies for c in x.calls if c.bb in x.live and c.is_path(f"{RDB}::next_prefix")]
+        ctx.expect_sites("6.seek-at-successor", npc, exactly=1, what="next_prefix(prefix) as the reverse seek key")
+        tw = [c for c in rb.calls if c.bb in rb.live and c.name == "take_while"]
+        ctx.expect_sites("6.prefix-filter", tw, exactly=2, what="take_while(starts_with(prefix)) on both branches")
+        sk = [c for c in rb.calls if c.bb in rb.live and c.name in ("skip_while", "skip", "filter")]
+        ctx.add("6.inclusive-seek-skips-foreign-first-key", "GUARD", len(sk) >= 1 and all(any(rb.path([s_.target], [t.bb]) is not None for t in tw) for s_ in sk),
+                "the reverse seek is inclusive: a key equal to the successor is skipped before the prefix filter is applied", sites=[c.where() for c in sk], site_key="skip")
